@@ -67,23 +67,25 @@ Definition mfl_verdict (c : mflcase) : list nat :=
    else [216]) ++
   (* guards *)
   mtag (g_no_wildcard a && g_no_wildcard b) 210 ++
-  mtag (g_cov_symmetric a b) 211 ++
   mtag (g_tuples_canonical a b) 212 ++
   mtag (g_same_metabolite a b) 213 ++
   mtag (g_transits_product a) 214 ++
   mtag (g_pd_difference a b) 215 ++
   mtag (g_let_not_forced (m_val_a c) && g_let_not_forced (m_val_b c)) 217.
 
-(* Transits.__eq__ on two statements: what came back (a pair?), its components, its truth value *)
-Definition teq_verdict (t1 t2 : pstmt) (is_pair : bool) (c1 c2 : bool) (truth : bool) : list nat :=
+(* Transits.__eq__ on two statements: the truth value that came back *)
+Definition same_depot_form (t1 t2 : pstmt) : bool :=
+  match p_keys t1, p_keys t2 with MWild, MWild | MList _, MList _ => true | _, _ => false end.
+Definition teq_verdict (t1 t2 : pstmt) (is_bool : bool) (truth : bool) : list nat :=
   match transits_stmt_eq t1 t2 with
-  | Some (x, y) => mtag (is_pair && Bool.eqb x c1 && Bool.eqb y c2 && Bool.eqb truth (pair_truth (x, y))) 7
+  | Some x => mtag (is_bool && Bool.eqb x truth) 7
   | None => [7]
   end ++
-  (* `t1 == t2` must be the truth value of "same counts and same depots" *)
-  mtag (Bool.eqb truth (seteqb pair_eqb (E_stmt [] w_depot t1) (E_stmt [] w_depot t2))) 78 ++
-  mtag (seteqb pair_eqb (E_stmt [] w_depot t1) (E_stmt [] w_depot t2)) 218.
-
+  (* `t1 == t2` is the truth value of "same counts and same depots" (statements written in the same form:
+     a `*` depot is only equal to a `*` depot -- tag 220 marks the pairs outside that domain) *)
+  (if same_depot_form t1 t2
+   then mtag (is_bool && Bool.eqb truth (seteqb pair_eqb (E_stmt [] w_depot t1) (E_stmt [] w_depot t2))) 78
+   else [220]).
 
 (* ---- least_number_of_transformations(other, tool='modelsearch') ---- *)
 Definition lnt_item_matches (i : lnt_item) (k : key) : bool :=
@@ -117,10 +119,6 @@ Definition lnt_spec_ok (a b : mf) (ks : list key) : bool :=
   lnt_cat_ok s_PERIPHERALS (has_common pair_eqb (drug_only (Epk_periph a)) (drug_only (Epk_periph b)) || is_nil (drug_only (Epk_periph b)))
              (fun k => match k with [_; AI z] => Z.leb 0 z && memb pair_eqb (Z.to_N z, s_DRUG) (Epk_periph b) | _ => false end) ks &&
   forallb (fun k => existsb (fun c => atom_eqb (kcat k) (AS c)) [s_ABSORPTION; s_ELIMINATION; s_LAGTIME; s_TRANSITS; s_PERIPHERALS]) ks.
-(* guard: the space offers no metabolite peripheral compartments *)
-Definition g_no_met_peripherals (b : mf) : bool :=
-  negb (existsb (fun p => N.eqb (snd p) s_MET) (Epk_periph b)).
-
 Definition lnt_verdict (a b : mf) (o : obs (list key)) : list nat :=
   match lnt_modelsearch a b, o with
   | Ok items, OOk ks => mtag (list_rel2 lnt_item_matches items ks) 7
@@ -128,4 +126,4 @@ Definition lnt_verdict (a b : mf) (o : obs (list key)) : list nat :=
   | _, _ => [7]
   end ++
   match o with OOk ks => mtag (lnt_spec_ok a b ks) 77 | _ => [766] end ++
-  mtag (g_no_wildcard a && g_no_wildcard b) 210 ++ mtag (g_no_met_peripherals b) 219.
+  mtag (g_no_wildcard a && g_no_wildcard b) 210.
